@@ -337,6 +337,41 @@ Definition registry_add (r : creg) (f : sfile) : add_err + creg :=
       end
   end.
 
+(* Add works IN PLACE on the tree it is handed: sdn.Params = append(sdn.Params, ...)
+   on the SoyDoc node in front of the template when there is one (when there is
+   none, Add makes a SoyDoc node of its own that is NOT put into the tree), and
+   tn.Body.Nodes = tn.Body.Nodes[len(headerParams):].  [rewritten_file f] is the
+   tree of [f] as a successful Add leaves it -- the very tree registry_add puts
+   into cr_soyfiles.  Add returns its namespace errors before it touches the tree.
+   Bundle.Compile parses every file anew on each call, so a tree is handed to Add
+   once; what Add would make of a tree it has rewritten already is the subject of
+   Proofs/CompileReaddProofs.v. *)
+Definition rewritten_file (f : sfile) : sfile :=
+  match find_namespace (sfile_body f) with
+  | inr (nsname, nsae) =>
+      {| sfile_name := sfile_name f; sfile_text := sfile_text f;
+         sfile_body := processed_body (sfile_name f) nsname nsae None (sfile_body f) |}
+  | inl _ => f
+  end.
+
+(* ... and the tree of [f] when Add returned an error at one of its templates:
+   the first [k] nodes as Add rewrites them, the others as [tail] leaves them
+   (untouched; or, when the error is "both soydoc and header params", with the
+   header params appended to the SoyDoc node of the rejected template already:
+   sdn.Params = append(...) comes before the test, tn.Body.Nodes = ... after it) *)
+Definition interrupted_file (k : nat) (tail : list node -> list node) (f : sfile) : sfile :=
+  match find_namespace (sfile_body f) with
+  | inr (nsname, nsae) =>
+      {| sfile_name := sfile_name f; sfile_text := sfile_text f;
+         sfile_body := firstn k (processed_body (sfile_name f) nsname nsae None (sfile_body f)) ++ tail (skipn k (sfile_body f)) |}
+  | inl _ => f
+  end.
+Definition params_appended (extra : list node) (suffix : list node) : list node :=
+  match suffix with
+  | NSoyDoc p ps :: rest => NSoyDoc p (ps ++ extra) :: rest
+  | _ => suffix
+  end.
+
 (* the tree as pinned (before the I9 repair, commit 4041f47): no duplicate test;
    kept for the refutation in Properties/C13.v *)
 Fixpoint add_units_pinned (ftext : bstr) (us : list (add_err + tmpl_unit)) (r : registry) : add_err + registry :=
@@ -690,6 +725,10 @@ Inductive cerr :=
 Inductive cresult (A : Type) := COk (a : A) | CErr (e : cerr).
 Arguments COk {A} a.
 Arguments CErr {A} e.
+
+(* a source whose tree (if it has one) went through a successful Add before *)
+Definition rewritten_src (s : src) : src :=
+  match s with SrcOk f => SrcOk (rewritten_file f) | SrcParseErr _ _ => s end.
 
 (* for _, soyfile := range b.files { parse; registry.Add } *)
 Fixpoint add_all_files (r : creg) (srcs : list src) : cresult creg :=
